@@ -66,10 +66,100 @@ inline void rt() {
     sched_setaffinity(t, sizeof all, &all);
 }
 
+inline void key_table_init();
 inline void env_setup() {
   setenv("GALOIS_DO_NOT_BIND_THREADS", "1", 1);
   setenv("GALOIS_DEBUG_SKIP", "1", 1); // gDebug() chatter off (asserts stay on)
+  key_table_init();
 }
+
+// ---------------------------------------------------------------------------
+// One report per key.  A defect typically fails thousands of inputs, but the
+// driver keeps only the first 64 failures of a case (in arrival order) before
+// it groups them by key, so which keys survive would depend on timing.  The
+// harness therefore lets only the FIRST failure of each (case, key) through --
+// a table in shared memory, created in main() and inherited by the workers,
+// says which keys have been claimed; later failures with a claimed key are
+// dropped by the run wrapper (the key is already on record).  A replay runs in
+// a fresh process with an empty table, so it always reports.
+// ---------------------------------------------------------------------------
+struct KeyTable {
+  std::atomic<uint64_t> slot[1024];
+};
+inline KeyTable*& key_table() {
+  static KeyTable* t = nullptr;
+  return t;
+}
+inline void key_table_init() { // in main(), before any fork
+  void* p = mmap(nullptr, sizeof(KeyTable), PROT_READ | PROT_WRITE,
+                 MAP_SHARED | MAP_ANONYMOUS, -1, 0);
+  if (p != MAP_FAILED)
+    key_table() = (KeyTable*)p; // zero-filled
+}
+inline std::string& current_case() {
+  static std::string s;
+  return s;
+}
+inline uint64_t key_hash(const std::string& key) {
+  uint64_t h = sx::hash_str(current_case() + "\x01" + key);
+  return h ? h : 1;
+}
+inline bool key_seen(const std::string& key) {
+  KeyTable* t = key_table();
+  if (!t)
+    return false;
+  uint64_t h = key_hash(key);
+  for (uint64_t i = 0; i < 1024; ++i) {
+    uint64_t v = t->slot[(h + i) % 1024].load();
+    if (v == h)
+      return true;
+    if (v == 0)
+      return false;
+  }
+  return false;
+}
+// true iff this call is the first to claim the key
+inline bool key_claim(const std::string& key) {
+  KeyTable* t = key_table();
+  if (!t)
+    return true;
+  uint64_t h = key_hash(key);
+  for (uint64_t i = 0; i < 1024; ++i) {
+    std::atomic<uint64_t>& s = t->slot[(h + i) % 1024];
+    uint64_t v               = s.load();
+    if (v == h)
+      return false;
+    if (v == 0) {
+      uint64_t exp = 0;
+      if (s.compare_exchange_strong(exp, h))
+        return true;
+      if (exp == h)
+        return false;
+    }
+  }
+  return true;
+}
+
+// Failures that must not stop the rest of the run (known defects).  At the end
+// the first one whose key is still unclaimed is rethrown (else the first).
+struct Deferred {
+  std::vector<sx::Fail> all;
+  template <class F>
+  void run(F f) {
+    try {
+      f();
+    } catch (const sx::Fail& x) {
+      all.push_back(x);
+    }
+  }
+  void rethrow() {
+    for (auto& f : all)
+      if (!key_seen(f.key))
+        throw f;
+    if (!all.empty())
+      throw all[0];
+  }
+};
 
 // ---------------------------------------------------------------------------
 // Crash probe.  A call that kills the process would take the worker (and the
